@@ -60,7 +60,6 @@ def run(tier: str) -> Run:
     r2 = run.rule('R2', 'block table: size field, each block once, call-order independent order, extents contiguous from the table end to EOF', 20)
     r3 = run.rule('R3', 'each extent holds a block of the declared type that decodes completely and exactly within it', 20)
     cfi = repo.func(BUILD, 'SqwBuilder.create')
-    bfi = repo.func(BUILD, 'SqwBuilder._serialize_block_allocation_table')
     rfi = repo.func(SQW, 'Sqw.read_data_block')
     fails: dict = {'R0': {}, 'R1': {}, 'R2': {}, 'R3': {}}
     reference_order: dict = {}
@@ -99,11 +98,11 @@ def run(tier: str) -> Run:
             bad('R1', 'Sqw.open re-opens the file', cfg, f'{kind} {sq}')
             sq = None
         else:
-            io_ = sq.attrs.get('_sqw_io')
-            got_bo = io_.attrs.get('_byteorder') if isinstance(io_, SObj) else None
-            if not (isinstance(got_bo, EnumMember) and got_bo.name == bo):
+            # what the re-opened file reports through its public properties
+            kb, got_bo = wr.world.call(repo.func(SQW, 'Sqw.byteorder'), [], bound=sq)
+            if not (kb == 'return' and isinstance(got_bo, EnumMember) and got_bo.name == bo):
                 bad('R1', 'Sqw.open finds the byte order', cfg, f'deduced {got_bo!r}')
-            h2 = sq.attrs.get('_file_header')
+            kh, h2 = wr.world.call(repo.func(SQW, 'Sqw.file_header'), [], bound=sq)
             if not (isinstance(h2, SObj) and h2.attrs.get('prog_name') == 'horace' and h2.attrs.get('prog_version') == 4.0 and h2.attrs.get('n_dims') == want_hdr['n_dims']):
                 bad('R1', 'header fields', cfg, f'package reader: {h2!r}')
         # ---- R2
@@ -133,10 +132,14 @@ def run(tier: str) -> Run:
         if pos != len(units):
             bad('R2', 'last extent ends at end-of-file', cfg, f'extents end at {pos}, file has {len(units)} bytes')
         if sq is not None:
-            bat2 = sq.attrs.get('_block_allocation_table')
-            if not isinstance(bat2, dict) or list(bat2) != names or any(
-                    not isinstance(d, SObj) or (d.attrs.get('position'), d.attrs.get('size')) != (b['position'], b['size']) for d, b in zip(bat2.values(), bt['blocks'], strict=False)):
-                bad('R2', 'package reader sees the same table', cfg, f'{list(bat2) if isinstance(bat2, dict) else bat2!r}')
+            # the names the re-opened file lists (public); that each is found at its position with its size is R3 (the reader ends at the extent end)
+            kn, listed = wr.world.call(repo.func(SQW, 'Sqw.data_block_names'), [], bound=sq)
+            try:
+                listed = list(wr.world.it.iterate(listed, None)) if kn == 'return' else listed
+            except AnalysisError:
+                pass
+            if kn != 'return' or listed != names:
+                bad('R2', 'package reader sees the same table', cfg, f'{listed!r}'[:200])
         # ---- R3
         for b in bt['blocks']:
             cur = sqwfmt.Cursor(units, order, b['position'])
@@ -176,7 +179,7 @@ def run(tier: str) -> Run:
         'R3': ['pixel block holds 9 rows x N pixels', 'histogram block holds zeros of the declared shape', 'data_block decodes within its extent',
                'pix_data_block decodes within its extent', 'dnd_data_block decodes within its extent', 'package reader decodes every block'],
     }
-    where = {'R0': loc(cfi), 'R1': where_of(repo, BUILD, '_write_file_header', 'SqwBuilder.create'), 'R2': loc(bfi), 'R3': loc(cfi)}
+    where = {'R0': loc(cfi), 'R1': where_of(repo, BUILD, '_write_file_header', 'SqwBuilder.create'), 'R2': where_of(repo, BUILD, 'SqwBuilder._serialize_block_allocation_table', 'SqwBuilder.create'), 'R3': loc(cfi)}
     for rule, rr in (('R0', r0), ('R1', r1), ('R2', r2), ('R3', r3)):
         for inst in instances[rule]:
             f = fails[rule].get(inst)
@@ -204,7 +207,9 @@ def run(tier: str) -> Run:
             continue
         w = World(repo)
         target = AbsFile(in_memory)
-        ll = SObj(repo.cls(LL, 'LowLevelSqw'), {'_file': target, '_byteorder': w.enum('io.sqw._bytes', 'Byteorder', bo), '_path': None})
+        kc, ll = w.call_construct(repo.cls(LL, 'LowLevelSqw'), [target], {'path': None, 'byteorder': w.enum('io.sqw._bytes', 'Byteorder', bo)})
+        if kc != 'return':
+            raise AnalysisError(f'LowLevelSqw(file, path=None, byteorder={bo}) cannot be constructed: {ll}')
         base = w.sv('arr', None, (n_el,), dtype='float64', dims=['x'])
         raw = w.model.raw(w.it, base, None, 'values')
         set_shape(raw, (n_el,), ['x'])
